@@ -1,5 +1,6 @@
 import DvcData.Model.IndexLazy
 import DvcData.Proofs.AList
+import DvcData.Proofs.Lazy
 /-!
 # C17 — lazy directory loading, filtered views and the fs adaptor are transparent
 -/
@@ -118,5 +119,79 @@ theorem getItem_present (load : Oid → Option Listing) (idx : LIndex) (k : Key)
 theorem view_exact (load : Oid → Option Listing) (idx : LIndex) (f : Key → Bool) (p : Key × LEntry) :
     p ∈ viewItems load idx f ↔ (p ∈ expand load idx ∧ f p.1 = true) := by
   simp [viewItems, List.mem_filter]
+
+
+/-! ### the refinement: every sequence of lookups answers as on the expanded index -/
+
+/-- a sequence of lookups through a lazy index (each may load a directory and thereby change the index) -/
+def runGets (load : Oid → Option Listing) : LIndex → List Key → LIndex × List (Option (Bool × Option Oid))
+  | idx, [] => (idx, [])
+  | idx, k :: r =>
+    let (idx1, a) := getItem load idx k
+    let (idx2, as) := runGets load idx1 r
+    (idx2, a.map proj :: as)
+
+theorem getItem_preserves (load : Oid → Option Listing) (hlo : ListingsOK load) (idx : LIndex) (hw : W1 idx) (k : Key) :
+    W1 (getItem load idx k).1 ∧ ∀ k', denote load (getItem load idx k).1 k' = denote load idx k' := by
+  unfold getItem
+  cases hk : idx.lookup k with
+  | some e => exact ⟨hw, fun _ => rfl⟩
+  | none =>
+    simp only
+    cases hlp : longestPrefix idx k with
+    | none => exact ⟨hw, fun _ => rfl⟩
+    | some d => exact ⟨loadAt_W1 load hlo idx hw d, fun k' => loadAt_denote load hlo idx hw d k'⟩
+
+/-- **C17 (lookups).** For a well-formed lazy index, *every* sequence of lookups — in whatever order they
+    trigger the loading of directory objects — answers each key with the meaning of the original index at
+    that key; the index stays well-formed and keeps its meaning. -/
+theorem lazy_lookups_answer_denote (load : Oid → Option Listing) (hlo : ListingsOK load) :
+    ∀ (ks : List Key) (idx : LIndex), W1 idx →
+      (runGets load idx ks).2 = ks.map (denote load idx) ∧ W1 (runGets load idx ks).1 ∧
+      ∀ k', denote load (runGets load idx ks).1 k' = denote load idx k' := by
+  intro ks
+  induction ks with
+  | nil => intro idx hw; exact ⟨rfl, hw, fun _ => rfl⟩
+  | cons k r ih =>
+    intro idx hw
+    obtain ⟨hw1, hden1⟩ := getItem_preserves load hlo idx hw k
+    obtain ⟨h1, h2, h3⟩ := ih (getItem load idx k).1 hw1
+    simp only [runGets, List.map_cons]
+    refine ⟨?_, h2, fun k' => (h3 k').trans (hden1 k')⟩
+    rw [h1, getItem_denote]
+    congr 1
+    exact List.map_congr_left (fun k' _ => hden1 k')
+
+theorem foldl_loadAt_preserves (load : Oid → Option Listing) (hlo : ListingsOK load) :
+    ∀ (ds : List Key) (idx : LIndex), W1 idx →
+      W1 (ds.foldl (loadAt load) idx) ∧ ∀ k, denote load (ds.foldl (loadAt load) idx) k = denote load idx k := by
+  intro ds
+  induction ds with
+  | nil => intro idx hw; exact ⟨hw, fun _ => rfl⟩
+  | cons d r ih =>
+    intro idx hw
+    obtain ⟨h1, h2⟩ := ih (loadAt load idx d) (loadAt_W1 load hlo idx hw d)
+    exact ⟨h1, fun k => (h2 k).trans (loadAt_denote load hlo idx hw d k)⟩
+
+/-- loading everything (`index.load()`) keeps the meaning -/
+theorem expand_denote (load : Oid → Option Listing) (hlo : ListingsOK load) (idx : LIndex) (hw : W1 idx) (k : Key) :
+    denote load (expand load idx) k = denote load idx k :=
+  (foldl_loadAt_preserves load hlo _ idx hw).2 k
+
+/-- **C17 (lazy = expanded).** Any sequence of lookups gives the same answers on the lazy index as on the
+    explicitly expanded one — loading on demand, in any order, is invisible. -/
+theorem lazy_refines_expanded (load : Oid → Option Listing) (hlo : ListingsOK load) (idx : LIndex) (hw : W1 idx)
+    (ks : List Key) : (runGets load idx ks).2 = (runGets load (expand load idx) ks).2 := by
+  have hwe := (foldl_loadAt_preserves load hlo (idx.map (·.1)) idx hw).1
+  rw [(lazy_lookups_answer_denote load hlo ks idx hw).1,
+    (lazy_lookups_answer_denote load hlo ks (expand load idx) hwe).1]
+  exact List.map_congr_left (fun k _ => (expand_denote load hlo idx hw k).symm)
+
+/-! non-vacuity: an index with an unloaded directory object `d` listing `a` and `s/b` -/
+def exLoad : Oid → Option Listing := fun o => if o = "t.dir" then some [([['a']], "1"), ([['s'], ['b']], "2")] else none
+def exIdx : LIndex := [([['d']], { isdir := true, hash := some "t.dir", loaded := false }), ([['f']], { isdir := false, hash := some "9", loaded := true })]
+
+example : (runGets exLoad exIdx [[['d'], ['s'], ['b']], [['d'], ['s']], [['f']], [['d'], ['x']]]).2 =
+    [some (false, some "2"), some (true, none), some (false, some "9"), none] := by decide
 
 end DvcData.IndexLazy
